@@ -221,6 +221,7 @@ theorem installBody_issues (L : PKind → List Pkg) (p c f : List Img) :
       split
       · exact .ret _
       · rename_i fs hfs
+        unfold installApply
         refine issues_bind (issues_forEach_mem ps fun a ha => applyPkg_issues L _ a (buildAll_mem _ _ _ _ hps a ha)) ?_
         intro r; split
         · refine issues_bind (issues_forEach_mem cs fun a ha => applyPkg_issues L _ a (buildAll_mem _ _ _ _ hcs a ha)) ?_
